@@ -80,6 +80,7 @@ class Case:
         c.tmp_xdev = getattr(self, "tmp_xdev", False)
         c.warm = getattr(self, "warm", False)
         c.residue = getattr(self, "residue", False)
+        c.swapdir = getattr(self, "swapdir", False)
         return c
 
     def cleanup(self):
@@ -148,6 +149,8 @@ class Case:
             a.append("-admin")
         if getattr(self, "warm", False):
             a += ["-warm", os.path.join(self.root, "warm.yaml")]
+        if getattr(self, "swapdir", False):
+            a.append("-swapdir")
         return a
 
     def role(self, path):
@@ -422,6 +425,10 @@ def standard_cases(thorough=False):
     for c in (Case("update-over-crash-residue", "update", had="user", aux=b"totp: QUJD\n"), Case("add-over-crash-residue", "add", target_admin=True)):
         c.residue = True
         cs.append(c)
+    for c in (Case("add-after-directory-replaced", "add"), Case("update-after-directory-replaced", "update", had="user", aux=b"x: y\n"),
+              Case("setadmin-after-directory-replaced", "setadmin", had="user", target_admin=True)):
+        c.swapdir = True
+        cs.append(c)
     for c in (Case("add-after-other-store", "add"), Case("update-after-other-store", "update", had="user", aux=b"x: y\n"),
               Case("setadmin-after-other-store", "setadmin", had="user", target_admin=True), Case("remove-after-other-store", "remove", had="admin")):
         c.warm = True
@@ -623,7 +630,7 @@ def overtaken_writer_runs(ctx, drv, bl, prop="C15"):
     n = 0
     for b in bl:
         c0 = b["case"]
-        if c0.op != "add" or c0.had or getattr(c0, "tmp_xdev", False) or getattr(c0, "warm", False) or getattr(c0, "residue", False):
+        if c0.op != "add" or c0.had or getattr(c0, "tmp_xdev", False) or getattr(c0, "warm", False) or getattr(c0, "residue", False) or getattr(c0, "swapdir", False):
             continue
         reg = b["run"]["parsed"]["region"]
         for k, idx in enumerate(mutating_indices(reg)):
@@ -735,7 +742,7 @@ def fault_runs(ctx, drv, bl, errnos=ERRNOS, workers=16, only_calls=None, as_prop
     """Fail each system call of each operation once. Returns (runs, requested, per_case trace lines)."""
     jobs = []
     for b in bl:
-        if getattr(b["case"], "tmp_xdev", False) or getattr(b["case"], "warm", False):
+        if getattr(b["case"], "tmp_xdev", False) or getattr(b["case"], "warm", False) or getattr(b["case"], "swapdir", False):
             continue        # xdev: the operation already fails by construction (EXDEV), a second, injected fault is outside "an I/O
                             # error"; warm: the same call sequence as the plain case, the faults are injected there
         reg = b["run"]["parsed"]["region"]
